@@ -55,6 +55,7 @@ def dataset (j : Json) : R Json := do
   let signal ← fld j "signal" >>= asFloat
   let noise ← fld j "noise" >>= asFloat
   let same ← fld j "same" >>= asBool
+  let exact ← fld j "exact" >>= asBool
   let cond ← fld j "cond" >>= condInput
   let sigs ← fld j "signals" >>= asList asMatF
   let zs ← fld j "noises" >>= asList asMatF
@@ -84,7 +85,8 @@ def dataset (j : Json) : R Json := do
          ("signal", ofFloat ds.signal), ("noise", ofFloat ds.noise),
          ("model", Json.str ds.modelName), ("theta", ofOpt (ofList ofFloat) ds.theta),
          ("n_obs", ofNat ds.nObs), ("n_ch", ofNat ds.nCh)])
-  let plan := (drawPlan same nSim).map (fun d => Json.arr #[Json.bool d.1, ofNat d.2])
+  -- the plan on the branch taken (a signal entry only if that branch of make_signal consumes a draw)
+  let plan := (drawPlanFor exact same nSim).map (fun d => Json.arr #[Json.bool d.1, ofNat d.2])
   pure (obj [("datasets", Json.arr outs.toArray), ("plan", Json.arr plan.toArray),
              ("n_signal_calls", ofNat (nSignalCalls same nSim)),
              ("n_cols", ofNat cond.nCols), ("gen_width", ofNat (genWidth nCond nCh)),
